@@ -9,6 +9,8 @@ import (
 
 	metav1 "k8s.io/apimachinery/pkg/apis/meta/v1"
 	gatewayv1 "sigs.k8s.io/gateway-api/apis/v1"
+	"sigs.k8s.io/gateway-api/apis/v1alpha2"
+	"sigs.k8s.io/gateway-api/apis/v1alpha3"
 
 	vu "github.com/nginx/nginx-gateway-fabric/internal/verifutil"
 )
@@ -121,5 +123,11 @@ func vpWipeStatuses(w *vpWorld) {
 	for i := range grs.Items {
 		grs.Items[i].Status = gatewayv1.GRPCRouteStatus{}
 		_ = w.k8s.Status().Update(ctx, &grs.Items[i])
+	}
+	var btps v1alpha3.BackendTLSPolicyList
+	_ = w.k8s.List(ctx, &btps)
+	for i := range btps.Items {
+		btps.Items[i].Status = v1alpha2.PolicyStatus{}
+		_ = w.k8s.Status().Update(ctx, &btps.Items[i])
 	}
 }
